@@ -126,6 +126,14 @@ func (p *idxProver) minLen(v ssa.Value, at ssa.Instruction) int {
 			}
 			if okc {
 				up(p.minLen(x.X, at) - int(lo))
+			} else if x.Low != nil {
+				// s[low:] with low <= len(s) + k (k < 0): at least -k bytes remain
+				if sb, k, okr := p.upperRel(x.Low, at); okr {
+					xb, kb := p.lenBase(x.X)
+					if sameVal(sb, xb) && kb-k > 0 {
+						up(int(kb - k))
+					}
+				}
 			}
 		}
 	case *ssa.Call:
@@ -250,6 +258,68 @@ func (p *idxProver) firstByte(v ssa.Value, at ssa.Instruction) int {
 		}
 		if fb >= 0 {
 			return fb
+		}
+	case *ssa.Slice:
+		// s[n-1:] where n is a counter: starts at a constant c with s[c-1] == ch known, and is incremented by one only
+		// on edges taken under s[n] == ch — then s[n-1] == ch throughout
+		if sub, ok := x.Low.(*ssa.BinOp); ok && x.High == nil && sub.Op == token.SUB {
+			if one, okc := constInt(sub.Y); okc && one == 1 {
+				if ph, isPhi := sub.X.(*ssa.Phi); isPhi {
+					byteAt := func(term ssa.Instruction, idx ssa.Value, cidx int64, useConst bool) int {
+						for _, f := range p.facts(term) {
+							b, ok := f.Cond.(*ssa.BinOp)
+							if !ok || !((b.Op == token.EQL && f.True) || (b.Op == token.NEQ && !f.True)) {
+								continue
+							}
+							for _, side := range [][2]ssa.Value{{b.X, b.Y}, {b.Y, b.X}} {
+								c, okk := constInt(side[1])
+								if !okk {
+									continue
+								}
+								var sx, si ssa.Value
+								switch e := side[0].(type) {
+								case *ssa.Index:
+									sx, si = e.X, e.Index
+								case *ssa.Lookup:
+									sx, si = e.X, e.Index
+								default:
+									continue
+								}
+								if !sameVal(sx, x.X) {
+									continue
+								}
+								if useConst {
+									if ci, okc := constInt(si); okc && ci == cidx {
+										return int(c)
+									}
+								} else if sameVal(si, idx) {
+									return int(c)
+								}
+							}
+						}
+						return -1
+					}
+					fb := -2
+					for i, e := range ph.Edges {
+						b := -1
+						if bo, isB := e.(*ssa.BinOp); isB && bo.Op == token.ADD && bo.X == ssa.Value(ph) {
+							if st, okc := constInt(bo.Y); okc && st == 1 {
+								p.onEdge(ph, i, func(term ssa.Instruction) { b = byteAt(term, ph, 0, false) })
+							}
+						} else if c, okc := constInt(e); okc && c >= 1 {
+							p.onEdge(ph, i, func(term ssa.Instruction) { b = byteAt(term, nil, c-1, true) })
+						}
+						if fb == -2 {
+							fb = b
+						} else if fb != b {
+							fb = -1
+						}
+					}
+					if fb >= 0 {
+						return fb
+					}
+				}
+			}
 		}
 	case *ssa.Const:
 		if s, ok := constString(x); ok && len(s) > 0 {
@@ -476,6 +546,62 @@ func (p *idxProver) upperRel(v ssa.Value, at ssa.Instruction) (ssa.Value, int64,
 		case "strings.Index", "strings.LastIndex":
 			s, k := p.lenBase(x.Call.Args[0])
 			return s, k, true
+		}
+	case *ssa.Phi:
+		if sb, k, okf := p.upperRelFacts(v, at, nil); okf {
+			return sb, k, true // a branch fact in force here is at least as tight
+		}
+		// a counter that only grows by a positive constant, and only on edges taken under "counter < len(S) + d":
+		// counter <= len(S) + d + step - 1 holds throughout, provided every initial value satisfies it too
+		var base ssa.Value
+		bound := int64(0)
+		okInd, steps := true, 0
+		for i, e := range x.Edges {
+			b, isB := e.(*ssa.BinOp)
+			if !isB || b.Op != token.ADD || b.X != ssa.Value(x) {
+				continue
+			}
+			st, okc := constInt(b.Y)
+			if !okc || st <= 0 {
+				okInd = false
+				break
+			}
+			steps++
+			found := false
+			p.onEdge(x, i, func(term ssa.Instruction) {
+				if sb, k, okr := p.upperRelFacts(x, term, nil); okr {
+					if base == nil || (sameVal(base, sb) && k+st > bound) {
+						base, bound = sb, k+st
+					}
+					found = sameVal(base, sb)
+				}
+			})
+			if !found {
+				okInd = false
+			}
+		}
+		if okInd && steps > 0 && base != nil {
+			for i, e := range x.Edges {
+				if b, isB := e.(*ssa.BinOp); isB && b.Op == token.ADD && b.X == ssa.Value(x) {
+					continue
+				}
+				c, okc := constInt(e)
+				if !okc {
+					okInd = false
+					break
+				}
+				enough := false
+				p.onEdge(x, i, func(term ssa.Instruction) {
+					// c <= len(base) + bound
+					enough = int64(p.minLen(base, term)) >= c-bound
+				})
+				if !enough {
+					okInd = false
+				}
+			}
+			if okInd {
+				return base, bound, true
+			}
 		}
 	}
 	return p.upperRelFacts(v, at, nil)
